@@ -85,4 +85,19 @@ def do_serde():
     m = re.search(r'fn visit_str<E>\(self, v: &str\) -> Result<Self::Value, E>\s*where\s*E: Error,\s*\{(.*?)\n        \}', de, re.S)
     out['visit_str_body'] = re.sub(r'\s+', ' ', m.group(1)).strip() if m else None
 attempt('serde impls', do_serde)
+def do_shapes():
+    # the data types whose derived Eq / Hash / Ord the model transcribes (cmp_parts, cmp_g, cmp_t: lexicographic in declaration order)
+    def struct(src, name):
+        m = re.search(r'((?:\s*#\[[^\]]*\]\s*\n)+)\s*pub (?:struct|enum) ' + name + r'(?:<[^>]*>)?\s*\{(.*?)\n\}', src, re.S)
+        if not m: return None
+        attrs, body = m.groups()
+        derives = sorted(set(x.strip() for d in re.findall(r'#\[derive\(([^)]*)\)\]', attrs) for x in d.split(',') if x.strip()))
+        fields = [re.sub(r'\s+', ' ', l.strip().rstrip(',')) for l in body.split('\n') if l.strip() and not l.strip().startswith(('//', '#'))]
+        return dict(derives=derives, fields=fields)
+    out['shapes'] = {'PurlParts': struct(lib, 'PurlParts'), 'GenericPurl': struct(lib, 'GenericPurl'), 'Qualifiers': struct(q, 'Qualifiers'), 'PackageType': struct(pt, 'PackageType')}
+    m = re.search(r'((?:\s*#\[[^\]]*\]\s*\n)+)\s*pub struct QualifierKey\(([^)]*)\);', q)
+    out['shapes']['QualifierKey'] = dict(derives=sorted(set(x.strip() for d in re.findall(r'#\[derive\(([^)]*)\)\]', m.group(1)) for x in d.split(','))), fields=[m.group(2).strip()]) if m else None
+    # hand-written comparison / hashing impls for these types (the model knows exactly two: PartialEq<S> and PartialOrd<S> for QualifierKey)
+    out['manual_impls'] = sorted(re.sub(r'\s+', ' ', x) for src in (lib, q, pt) for x in re.findall(r'impl(?:<[^>]*>)?\s+((?:PartialEq|Eq|PartialOrd|Ord|Hash)(?:<[^>]*>)?\s+for\s+\w+(?:<[^>]*>)?)', src))
+attempt('data type shapes', do_shapes)
 print(json.dumps(out, indent=1))
